@@ -424,6 +424,27 @@ def parse_header_fn(line):
         params.append((int(m.group(1)), m.group(2)))
     return name, params, ret
 
+class _M:
+    def __init__(self, g): self.g = g
+    def group(self, i): return self.g[i]
+def match_const_header(line, oneline):
+    """`const NAME: TYPE = const VALUE;` (oneline) or `const NAME: TYPE = {`; NAME may contain `<impl at f.rs:1:2: 3:4>`"""
+    m = re.match(r'^(const|static(?: mut)?) ', line)
+    if not m: return None
+    rest = line[m.end():]; depth = 0; cut = None
+    for i, ch in enumerate(rest):
+        if ch == '<': depth += 1
+        elif ch == '>' and i > 0 and rest[i - 1] != '-': depth -= 1
+        elif ch == ':' and depth == 0 and rest[i:i + 2] == ': ' and rest[i - 1] != ':' :
+            cut = i; break
+    if cut is None: return None
+    name = rest[:cut]; tail = rest[cut + 2:]
+    if oneline:
+        m2 = re.match(r'^(.+?) = const (.+);$', tail)
+        return _M([line, m.group(1).split()[0], name, m2.group(1), m2.group(2)]) if m2 else None
+    m2 = re.match(r'^(.+?) = \{$', tail)
+    return _M([line, m.group(1).split()[0], name, m2.group(1)]) if m2 else None
+
 def parse_mir(path, src_tag=''):
     fns = {}
     cur = None; blk = None; pending = []
@@ -446,7 +467,7 @@ def parse_mir(path, src_tag=''):
                 for k, t in params: cur.locals[k] = t
                 raw = []
             else:
-                m1 = re.match(r'^(const|static) (.+?): (.+?) = const (.+);$', line)
+                m1 = match_const_header(line, True)
                 if m1:
                     g = Fn(); g.name = m1.group(2); g.kind = m1.group(1); g.params = []; g.ret = m1.group(3)
                     g.locals = {0: m1.group(3)}; g.sig = line; g.error = None; g.src = src_tag; g.nlocals = 1
@@ -455,7 +476,7 @@ def parse_mir(path, src_tag=''):
                     g.blocks = {0: b}; g.key = g.name; g.dup = 1
                     fns.setdefault(g.name, g)
                     continue
-                m = HDR_CONST.match(line)
+                m = match_const_header(line, False)
                 if m:
                     cur = Fn(); cur.name = m.group(2); cur.kind = m.group(1); cur.params = []; cur.ret = m.group(3)
                     cur.locals = {0: m.group(3)}; cur.blocks = {}; cur.sig = line; cur.error = None; cur.src = src_tag
